@@ -11,6 +11,7 @@ Core Lean only (generated kernels may be linked into a compiled driver).
 * `forEach`         — `for (it = c.begin(); it != c.end(); ++it) body` over a container modelled as a
                       `List` (the body does not change the container).
 * `forEachPre`
+* `whileLoop` / `whileLoopPre` — `while (cond) body` on fuel.
 -/
 namespace AdaptaVerif.Gen
 
@@ -32,6 +33,17 @@ def forRange {σ : Type} (body : Nat → σ → σ) : Nat → Nat → σ → σ
 def forRangePre {σ : Type} (pre : Nat → σ → Bool) (body : Nat → σ → σ) : Nat → Nat → σ → Bool
   | 0, _, _ => true
   | fuel + 1, i, s => pre i s && forRangePre pre body fuel (i + 1) (body i s)
+
+/-- `while (cond) body` on fuel: the generated function has an extra parameter `fuel_` -/
+def whileLoop {σ : Type} (cond : σ → Bool) (body : σ → σ) : Nat → σ → σ
+  | 0, s => s
+  | fuel + 1, s => if cond s then whileLoop cond body fuel (body s) else s
+
+/-- obligations of every evaluated condition and executed body; when the fuel is used up the loop must be over
+    (`cond` false), so `_pre` also says that the fuel was sufficient -/
+def whileLoopPre {σ : Type} (condPre cond bodyPre : σ → Bool) (body : σ → σ) : Nat → σ → Bool
+  | 0, s => condPre s && !cond s
+  | fuel + 1, s => condPre s && (if cond s then bodyPre s && whileLoopPre condPre cond bodyPre body fuel (body s) else true)
 
 /-- iterator loop over a container (in order), state `σ` -/
 def forEach {α σ : Type} (body : α → σ → σ) : List α → σ → σ
